@@ -9,7 +9,7 @@ Driver for C11.  A block is
 zones   `-` | zone`|`zone…      zone = <name token>`=`handlers      handlers = `-` | h`,`h…
 h       `mem/<0|1>`             in-memory zone, AXFR denied / allowed
         `scr/<p|s|e>/<flow>/<flow|->/<update rcode>/<n|o|z|eRC>`   scripted handler
-flow    `S` | `Co` | `Cz` | `Ce<rc>` | `Bo` | `Bz` | `Be<rc>`
+flow    `S` | `Co` | `Cr` (referral) | `Cz` | `Ce<rc>` | `Bo` | `Br` | `Bz` | `Be<rc>`
 prefix  `4:<addr>/<len>` | `6:<addr>/<len>`   (address as a decimal natural)
 src     `4:<addr>` | `6:<addr>`
 body    `ok` | `bad` | `na`     what the real decoder says about the rest of the message
@@ -50,6 +50,7 @@ def parsePrefixes (s : String) : Option (List Prefix) :=
 def parseLRes (s : String) : Option LRes :=
   match s.toList with
   | ['o'] => some .ok
+  | ['r'] => some .referral
   | ['z'] => some .zone
   | 'e' :: rc => (String.ofList rc).toNat?.map .err
   | _ => none
@@ -102,14 +103,20 @@ def showCall : Call → String
   | .update z h => s!"u{z}.{h}"
   | .xfer z h => s!"x{z}.{h}"
 
-def showReply (r : Reply) : String :=
+/-- `qb`: the question section of the response = `Queries::original` of the request when echoed -/
+def showReply (qb : Bytes) (r : Reply) : String :=
   let rc := match r.rcode with | some n => toString n | none => "*"
   let log := if r.calls.isEmpty then "-" else ",".intercalate (r.calls.map showCall)
-  s!"reply qr={showBool r.qr} rc={rc} id={r.id} op={r.opcode} rd={showBool r.rd} cd={showBool r.cd} aa={showBool r.aa} ra={showBool r.ra} q={showBool r.echo} opt={showBool r.opt} log={log}"
+  s!"reply qr={showBool r.qr} rc={rc} id={r.id} op={r.opcode} rd={showBool r.rd} cd={showBool r.cd} aa={showBool r.aa} ra={showBool r.ra} q={showBool r.echo} qb={toHex (if r.echo then qb else [])} opt={showBool r.opt} log={log}"
 
-def showGate : Gate → String
+def showGate (buf : Bytes) : Gate → String
   | .drop => "drop"
-  | .reply r => showReply r
+  | .reply r =>
+    -- an echoing reply carries the `original` of the question the gate read (`reply_matches_request`)
+    let qb := match readHeader buf with
+      | some h => (match readQueries buf h.qd with | .ok q => q.raw | _ => [])
+      | none => []
+    showReply qb r
   | .panic s => "panic " ++ s
 
 def parseBody (b e : String) : Option Body :=
@@ -148,7 +155,7 @@ def step (s : State) (toks : List String) : State × String :=
   | ["req", _proto, src, bytes, body, edns, zl] =>
     match s, parseIp src, parseHex bytes, parseBody body edns, parseZl zl with
     | some cfg, some ip, some buf, some b, some zl =>
-      (s, showGate (handleRequest { cfg with catalog := substZl cfg.catalog zl } ip buf b))
+      (s, showGate buf (handleRequest { cfg with catalog := substZl cfg.catalog zl } ip buf b))
     | _, _, _, _, _ => (s, "bad-op")
   | _ => (s, "bad-op")
 
